@@ -818,6 +818,9 @@ def check_enum(ctx, cr, e):
         return
     argsym = "p0" if native else "p0.0"
     argbits = [S(argsym, j) for j in range(N)] + [Z] * (St - N)
+    if any(len({json.dumps(c["sw"], sort_keys=True) for c in o["conds"] if "sw" in c}) > 1 for o in run["outs"]):
+        # the conversion branches on several values derived from the argument (nested matches on slices, ...)
+        return check_enum_multi(ctx, e, run, props, okey0, path, N, argsym, argbits, exhaustive, by_idx, model_by_name)
     seen = {}
     otherwise = None
     bad = None
@@ -947,6 +950,120 @@ def check_enum(ctx, cr, e):
                 if d:
                     d = "Err payload is not the raw value: " + d
             ctx.ob(props, okey0 + "|err", d is None, d or "", sample={"decl": path, "fn": "new_with_raw_value", "otherwise": v})
+
+
+def check_enum_multi(ctx, e, run, props, okey0, path, N, argsym, argbits, exhaustive, by_idx, model_by_name):
+    """general reading of a conversion's paths: every path is a conjunction of `slice == c` / `slice not in {..}`
+    conditions over values built from argument bits.  A path whose equalities fix all N argument bits is the arm
+    of that one raw value; any other path is a fall-through, which no raw value that has a variant may satisfy."""
+    want = {d: n for n, d in model_by_name.items()}
+
+    def slice_val(sw, r):
+        v = 0
+        for i, b in enumerate(sw):
+            if b == O:
+                v |= 1 << i
+            elif b == Z:
+                continue
+            else:
+                bit = (r >> b[2]) & 1
+                if b[3]:
+                    bit ^= 1
+                v |= bit << i
+        return v
+
+    seen = {}
+    fall = []
+    for o in run["outs"]:
+        conds = o["conds"]
+        if not conds or any("sw" not in c for c in conds):
+            ctx.ob(props, okey0, None, "a path of the conversion depends on something other than comparisons of argument bits with constants")
+            return
+        fixed = {}
+        feasible = True
+        groups = []
+        for c in conds:
+            sw = int_of(c["sw"])
+            for b in sw:
+                if b not in (Z, O) and not (b[0] == "s" and b[1] == argsym and b[2] < N):
+                    ctx.ob(props, okey0, None, "a value matched on is not built from the argument's bits")
+                    return
+            groups.append((sw, int(c["eq"]) if "eq" in c else None, [int(x) for x in c.get("ne", []) if str(x).lstrip("-").isdigit()]))
+            if "eq" in c:
+                x = int(c["eq"])
+                if x >> len(sw):
+                    feasible = False
+                for i, b in enumerate(sw):
+                    want_bit = (x >> i) & 1
+                    if b in (Z, O):
+                        if want_bit != (1 if b == O else 0):
+                            feasible = False
+                    else:
+                        val = want_bit ^ (1 if b[3] else 0)
+                        if fixed.setdefault(b[2], val) != val:
+                            feasible = False
+        if not feasible:
+            continue
+        if len(fixed) == N:
+            r = sum(v << j for j, v in fixed.items())
+            if any(slice_val(sw, r) in ne for (sw, eq, ne) in groups if eq is None):
+                continue  # excluded by an earlier arm: unreachable
+            if o["k"] != "ret":
+                if r in want or exhaustive:
+                    ctx.ob(props | ({"C10"} if exhaustive else set()), okey0, False, "raw value %d ends in %s" % (r, o["k"]))
+                    return
+                continue
+            v = o["v"]
+            if r in want:
+                if not exhaustive:
+                    if v.get("v") != 0 or len(v.get("f", [])) != 1:
+                        ctx.ob(props, okey0, False, "raw value %d does not return Ok(..): %s" % (r, json.dumps(v)[:80]))
+                        return
+                    v = v["f"][0]
+                nm = by_idx.get(v.get("v"), {}).get("name")
+                if nm is None or model_by_name.get(nm) != r:
+                    ctx.ob(props, okey0, False, "raw value %d returns %s whose discriminant is %s" % (r, nm, model_by_name.get(nm)))
+                    return
+                seen[r] = nm
+            else:
+                fall.append((groups, o))
+        else:
+            fall.append((groups, o))
+    missing = sorted(set(want) - set(seen))
+    if missing:
+        ctx.ob(props, okey0 + "|cover", False, "raw values %s have a variant but are not mapped to it" % missing[:4])
+        return
+    ctx.ob(props, okey0 + "|cover", True, sample={"decl": path, "fn": "new_with_raw_value", "mapped": len(seen), "paths": len(run["outs"])})
+    # no raw value with a variant may take a fall-through path; what the fall-through returns must be Err(raw)
+    for (groups, o) in fall:
+        for d in want:
+            if all((slice_val(sw, d) == eq) if eq is not None else (slice_val(sw, d) not in ne) for (sw, eq, ne) in groups):
+                ctx.ob(props | ({"C10"} if exhaustive else set()), okey0 + "|fallthrough", False, "raw value %d has the variant %s but takes a fall-through path (%s)" % (d, want[d], o["k"]))
+                return
+    if exhaustive:
+        full = len(want) == (1 << N)
+        ctx.ob(props | {"C10"}, okey0 + "|total", True if full else None, "" if full else "exhaustive enum without all 2^N variants in the model")
+        return
+    if len(want) == (1 << N):
+        ctx.ob(props, okey0 + "|err", True)
+        return
+    rets = [o for (g, o) in fall]
+    if not rets:
+        ctx.ob(props, okey0 + "|err", False, "values without a variant have no outcome")
+        return
+    for o in rets:
+        if o["k"] != "ret":
+            ctx.ob(props, okey0 + "|err", False, "values without a variant end in %s (%s)" % (o["k"], o.get("what")))
+            return
+        v = o["v"]
+        if v.get("v") != 1 or len(v.get("f", [])) != 1:
+            ctx.ob(props, okey0 + "|err", False, "values without a variant do not return Err(..): %s" % json.dumps(v)[:80])
+            return
+        d = diff_bits(int_of(v["f"][0]), argbits)
+        if d:
+            ctx.ob(props, okey0 + "|err", False, "Err payload is not the raw value: " + d)
+            return
+    ctx.ob(props, okey0 + "|err", True, sample={"decl": path, "fn": "new_with_raw_value", "fallthrough_paths": len(rets)})
 
 
 # ------------------------------------------------------------------ C13 / C14 builder
